@@ -40,7 +40,7 @@ def pregen(check):
 
 CFG = {
     "id": "C16",
-    "lean_modules": ["GeomV.C16.Proofs", "GeomV.C16.LayoutProofs", "GeomV.C16.EndToEnd", "GeomV.C16.TieGeom", "GeomV.C16.ReflectProofs", "GeomV.C16.ProofsFields", "GeomV.C16.ShxProofs", "GeomV.C16.FloatCertProofs", "GeomV.C16.ProofsFloat", "GeomV.C16.WrapProofs", "GeomV.C16.ProofsStruct", "GeomV.C16.ProofsStructBytes"],
+    "lean_modules": ["GeomV.C16.Proofs", "GeomV.C16.LayoutProofs", "GeomV.C16.EndToEnd", "GeomV.C16.TieGeom", "GeomV.C16.ReflectProofs", "GeomV.C16.ProofsFields", "GeomV.C16.ShxProofs", "GeomV.C16.FloatCertProofs", "GeomV.C16.ProofsFloat", "GeomV.C16.WrapProofs", "GeomV.C16.ProofsStruct", "GeomV.C16.ProofsStructBytes", "GeomV.C16.ProofsSchedule"],
     "exe": "geomv_c16",
     "go_cmd": "c16",
     "stages": ["go:gen", "go:impl", "lean:judge"],
@@ -59,7 +59,7 @@ CFG = {
                                  "C16_fields_roundtrip", "C16_float_cell_text", "fmtFloat_solid", "strOf_render", "rowFields_val",
                                  "Layout.C16_shx_invariant", "Layout.C16_shx_entries", "Layout.C16_stepMin", "Layout.C16_stepMax", "Layout.C16_box_polyline", "Layout.C16_record_box", "Layout.C16_box_multipoint", "Layout.C16_box_multipoint_minX", "Layout.C16_header_box", "Layout.C16_header_box_minX",
                                  "C16_float_cert", "C16_float_cert_rne", "C16_float_text", "C16_float_universal", "C16_float_nonfinite", "C16_floatCellCert_all", "C16_floatFmt_instance", "C16_float_unconditional", "C16_struct_roundtrip_float",
-                                 "C16_struct_file_roundtrip", "C16_callOK_written", "C16_match_any", "Matches_self", "C16_struct_roundtrip_matched", "reparse_close", "Layout.C16_struct_bytes_roundtrip",
+                                 "C16_struct_file_roundtrip", "C16_callOK_written", "C16_match_any", "Matches_self", "C16_struct_roundtrip_matched", "reparse_close", "Layout.C16_struct_bytes_roundtrip", "C16_schedule_written", "C16_mixed_file_roundtrip", "writeLenient_eq_strict",
                                  "Wrap.createW_none_iff", "Wrap.createW_within", "Wrap.encodeFieldsW_within", "Wrap.runW_within", "Wrap.encodeFieldsW_panics", "Wrap.cellOffW_nonneg", "Wrap.readAttributeW_within", "Wrap.wrap_regimes",
                                  "Gen.tie_widths", "Gen.tie_columns", "Gen.tie_lookup", "Gen.tie_cuts", "Gen.tie_write_order"]],
     "trusted_base": [
